@@ -130,6 +130,40 @@ def _trace_check(c: rs.SysCase, sim):
     return None
 
 
+def _flat_check(sim):
+    """the flat trace (what the web API serves) against the trace trees: the entry of every node is its
+    chronologically first occurrence -- the calculation itself, later occurrences being cache reads --
+    with that occurrence's reads, in order, and its value"""
+    import numpy
+    try:
+        flat = sim.tracer.get_flat_trace()
+    except Exception as exc:
+        return f"get_flat_trace raised {type(exc).__name__}: {str(exc)[:80]}"
+    first: dict = {}
+
+    def walk(node):
+        k = f"{node.name}<{node.period}>"
+        if k not in first:
+            first[k] = node
+        for ch in node.children:
+            walk(ch)
+    for root in sim.tracer.trees:
+        walk(root)
+    for k, node in first.items():
+        if k not in flat:
+            return f"the flat trace has no entry for {k}, which the trace trees record"
+        want = [f"{ch.name}<{ch.period}>" for ch in node.children]
+        if list(flat[k]["dependencies"]) != want:
+            return f"the flat trace of {k} lists the reads {list(flat[k]['dependencies'])[:8]}, its calculation performed {want[:8]}"
+        a, b = flat[k]["value"], node.value
+        if (a is None) != (b is None) or (a is not None and not numpy.array_equal(numpy.asarray(a), numpy.asarray(b))):
+            return f"the flat trace of {k} carries a value other than the one its calculation returned"
+    for k in flat:
+        if k not in first:
+            return f"the flat trace lists {k}, which the trace trees do not record"
+    return None
+
+
 def _tok_to_str(tok: str) -> str:
     from ..perutil import parse_period_token
     return str(parse_period_token(tok))
@@ -184,8 +218,8 @@ def impl(case: Case) -> str:
         except Exception as exc:     # a stored value that cannot be read back
             known = f"#UNREADABLE:{type(exc).__name__}: {str(exc)[:120]}"
         out = ";".join(outs) + "|" + known
-        if c.config.get("trace") and not any(o.startswith(("ERR", "CYCLE")) for o in outs) and False:
-            msg = _trace_check(c, sim)
+        if c.config.get("trace"):
+            msg = _flat_check(sim)
             if msg:
                 out += "#TRACE:" + msg
         return out
@@ -255,7 +289,7 @@ def _with_config(rng, c: rs.SysCase, subset) -> rs.SysCase:
 
 
 def generate(rng: random.Random, tier: str):
-    nsys = 40 if tier == "quick" else 600
+    nsys = 250 if tier == "quick" else 2500
     subsets = [s for k in range(len(OPTS) + 1) for s in itertools.combinations(OPTS, k)]
     out = []
     for _ in range(nsys):
